@@ -117,9 +117,9 @@ NOFAULT = dict(silent_peer=0, after=0, withhold_idx=-1)
 
 
 def case(scheme, mode, n, t, seed, policy="random", ids=None, deadline=6000, fault=None, byz=None, sign=True, cancel=0, msglen=2, slow=None, late=None, late_ms=0,
-         signers=None, cancel_at=None, stall=0):
+         signers=None, cancel_at=None, stall=0, stall_after=0):
     ca = cancel_at or (0, "", 0)
-    return dict(cancel_node=ca[0], cancel_event=ca[1], cancel_k=ca[2], stall_peer=stall, late=late or [], late_ms=late_ms, signers=signers or [], scheme=scheme, mode=mode, n=n, t=t, ids=ids or list(range(1, n + 1)), seed=seed, policy=policy, deadline_ms=deadline,
+    return dict(cancel_node=ca[0], cancel_event=ca[1], cancel_k=ca[2], stall_peer=stall, stall_after=stall_after, late=late or [], late_ms=late_ms, signers=signers or [], scheme=scheme, mode=mode, n=n, t=t, ids=ids or list(range(1, n + 1)), seed=seed, policy=policy, deadline_ms=deadline,
                 fault=fault or NOFAULT, byz=byz, sign=sign and scheme in ("bls", "ps"), cancel_ms=cancel, msglen=msglen, cfg=0,
                 slow_init=(slow or (0, 0))[0], slow_ms=(slow or (0, 0))[1])
 
@@ -228,7 +228,10 @@ def cases_for(pid, tr, rng, drv, wd, late=()):
         for scheme in ("bls", "ps", "eddsa"):
             for mode in ("loud", "silent"):
                 for peer in ([3] if not big else [1, 2, 3]):
-                    cs.append(case(scheme, mode, 3, 2, rng.randrange(1 << 30), deadline=400 if scheme != "eddsa" else 900, sign=False, stall=peer))
+                    # the peer reads k messages and then stops (k = 0: it never reads)
+                    for k in (([0, 1, 2, 3, 4, 6, 8, 12, 16] if mode == "loud" and scheme == "bls" else [0, 5]) if not big else range(0, 25)):
+                        cs.append(case(scheme, mode, 3, 2, rng.randrange(1 << 30), deadline=400 if scheme != "eddsa" else 900, sign=False,
+                                       stall=peer, stall_after=k))
         # the EdDSA adapter (tss-lib behind the MpcParty interface) through the complete stack: same fault catalogue
         for mode in (("loud", "silent") if big else ("loud",)):
             n, t = 3, 2
